@@ -1069,6 +1069,13 @@ def run_rt(case, src):
     turns = [ev["i"] for ev in case["history"] if ev["e"] == "user"][:6]
     results = [tr.val_from_model(ev["d"][0][1]) for ev in case["history"] if ev["e"] == "ctx" and len(ev["d"]) == 1 and ev["d"][0][0] in ("r",)]
 
+    from nemoguardrails.actions.actions import ActionResult
+
+    # scripted behaviour of the k-th action call of a conversation (a function of k only, so that a fresh and a used
+    # runtime must produce the same conversation): plain value / failure (raises) / ActionResult with context updates
+    beh_rng = random.Random(case["seed"] ^ 0x5EED)
+    behaviours = [beh_rng.choice(["plain"] * 7 + ["fail", "result", "result_same"]) for _ in range(64)]
+
     def mk():
         rt = _M.RT.__new__(_M.RT)
         rt.config = cfg
@@ -1079,36 +1086,55 @@ def run_rt(case, src):
         rt.watchers = []
         rt.max_events = 500
         calls = [0]
+        log = []
 
         async def act(**kw):
             calls[0] += 1
-            return results[(calls[0] - 1) % len(results)] if results else calls[0] % 3
+            k = calls[0] - 1
+            v = results[k % len(results)] if results else calls[0] % 3
+            b = behaviours[k % len(behaviours)]
+            if b == "fail":
+                log.append({"status": "failed"})
+                raise RuntimeError("scripted failure")
+            if b == "result":
+                log.append({"status": "success", "ret": tr.val_to_model(v), "cu": [["y", tr.val_to_model(k % 2)]]})
+                return ActionResult(return_value=v, context_updates={"y": k % 2})
+            if b == "result_same":
+                # context updates that change nothing the flows can see are not reported
+                log.append({"status": "success", "ret": None, "cu": [["zz_unset", None]]})
+                return ActionResult(return_value=None, context_updates={"zz_unset": None})
+            log.append({"status": "success", "ret": tr.val_to_model(v)})
+            return v
 
         for i in range(1, 40):
             rt.action_dispatcher.register_action(act, f"a{i}")
-        return rt, calls
+        return rt, calls, log
 
     strip = lambda e: {k: v for k, v in e.items() if k not in ("uid", "event_created_at", "source_uid", "action_uid", "action_finished_at")}  # noqa
 
-    async def converse(rt, calls, turns):
+    async def converse(rt, calls, turns, records=None):
         calls[0] = 0
         hist = []
         for t in turns:
             hist.append({"type": "UtteranceUserActionFinished", "final_transcript": "hi"})
             hist.append({"type": "UserIntent", "intent": t})
+            before = [strip(e) for e in hist]
             try:
                 new = await rt.generate_events(hist)
             except Exception as e:  # noqa
                 hist.append({"type": "EXC", "what": type(e).__name__ + ":" + str(e)[:60]})
                 break
+            if records is not None:
+                records.append({"before": before, "new": [strip(e) for e in new]})
             hist.extend(new)
         return [strip(e) for e in hist]
 
     loop = asyncio.new_event_loop()
+    records = []
     try:
-        rt1, c1 = mk()
-        fresh = loop.run_until_complete(converse(rt1, c1, turns))
-        rt2, c2 = mk()
+        rt1, c1, log1 = mk()
+        fresh = loop.run_until_complete(converse(rt1, c1, turns, records))
+        rt2, c2, _ = mk()
         rng = random.Random(case["seed"])
         for _ in range(2):
             other = [rng.choice(turns + ["zz unknown"]) for _ in range(rng.randrange(1, 5))]
@@ -1116,7 +1142,66 @@ def run_rt(case, src):
         used = loop.run_until_complete(converse(rt2, c2, turns))
     finally:
         loop.close()
+    # the oracle script for the Lean model of the loop: one entry per StartInternalSystemAction of the conversation
+    script, it = [], iter(log1)
+    for e in fresh:
+        if e["type"] == "StartInternalSystemAction":
+            name = e["action_name"]
+            if name.startswith("a") and name[1:].isdigit() and 1 <= int(name[1:]) < 40:
+                script.append(next(it, {"status": "success", "ret": None}))
+            else:
+                script.append({"status": "notfound"})
+    _M.last_rt = {"records": records, "script": script}
     return fresh, used
+
+
+def gen_canon_real(e):
+    """an event appended by generate_events, reduced to what the model of the loop carries"""
+    t = e["type"]
+    if t == "StartInternalSystemAction":
+        return ["start", e["action_name"], json.dumps(e["action_params"], sort_keys=True), e["action_result_key"]]
+    if t == "ContextUpdate":
+        return ["ctx", sorted([k, tr.val_to_model(v)] for k, v in e["data"].items())]
+    if t == "InternalSystemActionFinished":
+        return ["fin", e["action_name"], e["status"] == "success"]
+    if t == "BotIntent":
+        return ["bot", e["intent"]]
+    if t == "UserIntent":
+        return ["user", e["intent"]]
+    if t == "hide_prev_turn":
+        return ["hide"]
+    if t == "StartUtteranceBotAction":
+        return ["other", t, e.get("script")]
+    return ["other", t, None]
+
+
+def gen_canon_model(e):
+    k = e["e"]
+    if k == "start":
+        return ["start", e.get("name"), e.get("params"), e.get("rk")]
+    if k == "ctx":
+        return ["ctx", sorted(e["d"])]
+    if k == "fin":
+        return ["fin", e["name"], e["ok"]]
+    if k in ("bot", "user"):
+        return [k, e["i"]]
+    if k == "hide":
+        return ["hide"]
+    props = dict((a, b) for a, b in e.get("props", []))
+    sc = props.get("script")
+    return ["other", e["ty"], sc["s"] if isinstance(sc, dict) and "s" in sc else None]
+
+
+def gen_event_for_model(e):
+    """an event of the conversation so far as input of the model of the loop (`C14.gen`)"""
+    t = e["type"]
+    if t == "StartInternalSystemAction":
+        return {"e": "start", "name": e["action_name"], "params": json.dumps(e["action_params"], sort_keys=True), "rk": e["action_result_key"]}
+    if t == "StartUtteranceBotAction":
+        return {"e": "other", "ty": t, "props": [["script", tr.val_to_model(e.get("script"))]]}
+    if t == "UserMessage":
+        return {"e": "other", "ty": t, "props": [["text", tr.val_to_model(e.get("text"))]]}
+    return from_real_event(e)
 
 
 def from_real_event(e):
@@ -1384,6 +1469,13 @@ def run_impl(case):
             except tr.Unsupported as e:
                 return dict(obs, rt_skip=str(e))
             obs["rt_same"] = fresh == used
+            try:
+                obs["gen"] = [{"events": [gen_event_for_model(e) for e in r["before"]], "new": [gen_canon_real(e) for e in r["new"]]}
+                              for r in _M.last_rt["records"]]
+                obs["gen_script"] = _M.last_rt["script"]
+            except tr.Unsupported as e:
+                obs["gen"] = []
+                obs["gen_script"] = []
             if fresh != used:
                 i = next((i for i, (a, b) in enumerate(zip(fresh, used)) if a != b), min(len(fresh), len(used)))
                 obs["rt_diff"] = {"at": i, "fresh": fresh[i:i + 2], "used": used[i:i + 2]}
@@ -1440,6 +1532,40 @@ def run_impl(case):
                     res = {"res": "err"} if str(e).startswith("Error evaluating") else {"res": "exc:" + type(e).__name__}
                 slides.append({"flow": fid, "head": head, "ctx0": sorted([k, tr.val_to_model(v)] for k, v in ctxs[(head + len(slides)) % 3].items()), "out": res})
         obs["slides"] = slides
+        # (3b) slide WITH its side effect: `_label` keys injected into a copy of the parsed elements (and left-over
+        # `_active_label`s of "earlier slides"); which dicts get `_active_label` written, and the outcome, must be
+        # what V1Mut.slideM says (mutation_benign is about that function)
+        slides_m = []
+        lab_rng = random.Random(case["seed"] ^ 0xABCD)
+        idx = {c["id"]: c["elems"] for c in (mc or [])}
+        for fid, fc in load_configs(src).items():
+            n = len(fc.elements)
+            if len(slides_m) >= 6 or n == 0 or fid not in idx:
+                continue
+            for i in lab_rng.sample(range(n), min(n, lab_rng.choice([1, 1, 2]))):
+                fc.elements[i]["_label"] = lab_rng.choice(["L1", "L2", "L2", ""])
+                fc.elements[i]["_label_value"] = "v"
+            for i in range(n):
+                if lab_rng.random() < 0.2:
+                    fc.elements[i]["_active_label"] = "OLD"
+            melems = [{"el": el, "label": d.get("_label"), "active": d.get("_active_label")} for el, d in zip(idx[fid], fc.elements)]
+            for head in lab_rng.sample(range(n + 1), min(n + 1, 3)):
+                fc2 = copy.deepcopy(fc)
+                ctx0 = ctxs[1]
+                st = _M.fl.State(context=dict(ctx0), flow_states=[], flow_configs={fid: fc2})
+                try:
+                    h = _M.sliding.slide(st, fc2, head)
+                    res = {"res": "at" if h is not None and h >= 0 else "fin", "head": h, "upd": sorted([k, tr.val_to_model(v)] for k, v in st.context_updates.items())}
+                except tr.Unsupported:
+                    res = {"res": "unsupported"}
+                except Exception as e:  # noqa
+                    res = {"res": "err"} if str(e).startswith("Error evaluating") else {"res": "exc:" + type(e).__name__}
+                res["marks"] = [d.get("_active_label") for d in fc2.elements]
+                # nothing but the two private keys may have been written
+                strip2 = lambda d: {k: v for k, v in d.items() if k not in ("_active_label", "_active_label_data")}  # noqa
+                res["only_private"] = [strip2(a) for a in fc2.elements] == [strip2(a) for a in fc.elements]
+                slides_m.append({"flow": fid, "head": head, "elems": melems, "ctx0": sorted([k, tr.val_to_model(v)] for k, v in ctx0.items()), "out": res})
+        obs["slides_m"] = slides_m
     return obs
 
 
@@ -1456,6 +1582,12 @@ def model_requests(case, obs):
     idx = {c["id"]: c["elems"] for c in obs["mcfgs"]}
     for s in obs["slides"]:
         reqs.append({"m": "C14.slide", "elems": idx[s["flow"]], "ctx": s["ctx0"], "head": s["head"]})
+    # the action loop: one request per turn driven through RuntimeV1_0.generate_events (kind rt)
+    for g in obs.get("gen", []):
+        reqs.append({"m": "C14.gen", "flows": obs["mcfgs"], "events": g["events"], "results": obs["gen_script"]})
+    # slide with its side effect on the element dicts (`_active_label`)
+    for sm in obs.get("slides_m", []):
+        reqs.append({"m": "C14.slideM", "elems": sm["elems"], "ctx": sm["ctx0"], "head": sm["head"]})
     return reqs
 
 
@@ -1469,7 +1601,11 @@ def compare(case, obs, mouts):
     steps = mouts[0]["res"]
     nf = len(case["flows"])
     comps = mouts[1:1 + nf]
-    slides = mouts[1 + nf:]
+    ns = len(obs["slides"])
+    slides = mouts[1 + nf:1 + nf + ns]
+    ng = len(obs.get("gen", []))
+    gens = mouts[1 + nf + ns:1 + nf + ns + ng]
+    slides_m = mouts[1 + nf + ns + ng:]
     # compiler tie: parser output == compile(AST) == comp none (AST)
     for f, c, mc in zip(case["flows"], comps, obs["mcfgs"]):
         if c["compile"] != mc["elems"]:
@@ -1492,6 +1628,26 @@ def compare(case, obs, mouts):
         b = _canon_model_res(b)
         if a != b:
             return f"prefix {k}: impl {a} model {b}"
+    # the action loop (generate_events) turn by turn; not compared inside the region of an open finding
+    if not any(obs.get("zombie", [])):
+        for t, (g, m) in enumerate(zip(obs.get("gen", []), gens)):
+            if "exc" in m:
+                continue    # the model's slide fuel ran out (the real loop ran into the >100 events valve instead)
+            mm = [gen_canon_model(e) for e in m["new"]]
+            if mm != g["new"]:
+                i = next((i for i, (a, b) in enumerate(zip(g["new"], mm)) if a != b), min(len(mm), len(g["new"])))
+                return f"generate_events turn {t}: event {i}: impl {g['new'][i:i+2]} model {mm[i:i+2]}"
+    # slide and its mutation of the element dicts
+    for sm, m in zip(obs.get("slides_m", []), slides_m):
+        o = sm["out"]
+        if o["res"] in ("unsupported",):
+            continue
+        if o["res"] != m["res"]:
+            return f"slide+labels({sm['flow']}, head={sm['head']}): impl {o} model {m}"
+        if o["res"] in ("at", "fin") and (o["head"] != m["head"] or o["upd"] != _norm_ctx(m["upd"])):
+            return f"slide+labels({sm['flow']}, head={sm['head']}): impl {o} model {m}"
+        if o["res"] != "oof" and o.get("marks") != m.get("marks"):
+            return f"slide+labels({sm['flow']}, head={sm['head']}): `_active_label` written to {o.get('marks')}, model {m.get('marks')}"
     return None
 
 
@@ -1561,6 +1717,9 @@ def oracle(case, obs):
         return f"REUSE: prefix {k}: fresh flow configs decide {d}, used ones {u}"
     if case["kind"] == "rt" and not obs.get("rt_same", True):
         return f"REUSE: a used RuntimeV1_0 continues the same conversation differently: {obs['rt_diff']}"
+    for sm in obs.get("slides_m", []):
+        if not sm["out"].get("only_private", True):
+            return f"REUSE: slide({sm['flow']}, head={sm['head']}) changed an element dict beyond `_active_label` / `_active_label_data`"
     # (a) the flow's next statement
     exp, flags = ref_decisions(case["flows"], obs["history"])
     for k, (e, got) in enumerate(zip(exp, obs["used"])):
@@ -1706,6 +1865,14 @@ def tags(case, obs):
         t.append("exc:" + next(d["exc"] for d in obs["used"] if "exc" in d))
     if any(ev["e"] == "hide" for ev in obs["history"]):
         t.append("hide")
+    if obs.get("gen"):
+        t.append("gen:turns%d" % min(len(obs["gen"]), 6))
+        t.append("gen:events%d" % (max(len(g["new"]) for g in obs["gen"]) // 5 * 5))
+        for st in sorted({x.get("status", "success") + ("+cu" if x.get("cu") else "") for x in obs.get("gen_script", [])}):
+            t.append("gen:act:" + st)
+    if obs.get("slides_m"):
+        marks = [m for sm in obs["slides_m"] for m in sm["out"].get("marks", [])]
+        t.append("labels:" + ("written" if any(m not in (None, "OLD") for m in marks) else "none-written"))
     return t
 
 
